@@ -1248,3 +1248,140 @@ def rule_P26(repo: Repo) -> RuleResult:
         else:
             res.bad(m, b, f"mean_from_sum_count: {norm(b)}", "floor division by counts that are not declared pandas Series: NumPy semantics give 0 for a zero count")
     return res
+
+
+# ------------------------------------------------------------------------------------------------ A10 / A11 / A12 (facade)
+
+def rule_A10(repo: Repo) -> RuleResult:
+    """The value columns the DataFrame facade hands to the engine are exactly the selected columns: _values_to_group returns a
+    frame built from `self._obj[col] for col in self.value_columns` with no filter in the comprehension and nothing applied on
+    top of it (a `.select_dtypes(..)`, `.dropna(..)`, `.filter(..)` or a slice silently removes columns the engine and pandas
+    aggregate); the Series facade hands over the object itself."""
+    res = RuleResult("A10", "facade value columns: exactly the selected columns, unfiltered")
+    from .canon import subst_single_defs
+    api = repo.mod("groupby.api")
+    f = api.func("DataFrameGroupBy._values_to_group")
+    rets = [r for r in walk_no_nested(f.node) if isinstance(r, ast.Return) and r.value is not None]
+    if len(rets) != 1:
+        raise AnalysisError(f"A10: DataFrameGroupBy._values_to_group has {len(rets)} returns (expected 1)")
+    v = subst_single_defs(f, rets[0].value)
+    comps = [c for c in ast.walk(v) if isinstance(c, (ast.DictComp, ast.ListComp, ast.GeneratorExp))]
+    ok_outer = (isinstance(v, ast.Call) and norm(v.func) in ("pd.DataFrame", "pd.concat", "dict")) or isinstance(v, ast.DictComp)
+    ok_comp = len(comps) == 1 and len(comps[0].generators) == 1 and not comps[0].generators[0].ifs \
+        and attr_chain(comps[0].generators[0].iter) == ("self", "value_columns")
+    if ok_comp:
+        c = comps[0]
+        tgt = norm(c.generators[0].target)
+        val = c.value if isinstance(c, ast.DictComp) else c.elt
+        ok_comp = any(isinstance(x, ast.Subscript) and attr_chain(x.value) == ("self", "_obj") and norm(x.slice) == tgt for x in ast.walk(val))
+    construct = f"DataFrameGroupBy._values_to_group: return {norm(v)[:90]}"
+    if ok_outer and ok_comp:
+        res.ok(f, rets[0], construct, "one column of the object per selected value column")
+    elif not ok_outer:
+        res.bad(f, rets[0], construct,
+                "something is applied on top of the frame of selected value columns (or it is not built from them): a dtype / null / "
+                "label filter at this point silently removes value columns from every DataFrame facade result, although the engine and "
+                "pandas aggregate them")
+    else:
+        res.bad(f, rets[0], construct, "the frame handed to the engine is not `self._obj[col] for col in self.value_columns` without a filter")
+    g = api.func("SeriesGroupBy._values_to_group")
+    rets = [r for r in walk_no_nested(g.node) if isinstance(r, ast.Return) and r.value is not None]
+    if len(rets) == 1 and attr_chain(subst_single_defs(g, rets[0].value)) == ("self", "_obj"):
+        res.ok(g, rets[0], "SeriesGroupBy._values_to_group: return self._obj", "")
+    else:
+        res.bad(g, rets[0] if rets else g.node, f"SeriesGroupBy._values_to_group: return {norm(rets[0].value)[:60] if rets else '?'}",
+                "the Series facade must hand the grouped Series itself to the engine")
+    return res
+
+
+def rule_A11(repo: Repo) -> RuleResult:
+    """Key order of the DataFrame facade.  `by` is processed entry by entry and every entry contributes its key array at once -
+    on every non-raising path through the per-entry loop exactly one key is appended to the list the grouping is built from -
+    so the index levels of the result come in the order the keys were given (column names, arrays, callables and index-level
+    names may be mixed); `level=` keys follow.  An entry that is only noted and resolved later moves to the end."""
+    res = RuleResult("A11", "facade key order: every `by` entry appends its key at once, in the order given; `level` keys after them")
+    api = repo.mod("groupby.api")
+    f = api.func("DataFrameGroupBy._from_by_keys")
+    by_p = "by"
+    gcalls = [c for c in walk_no_nested(f.node) if isinstance(c, ast.Call) and norm(c.func) == "GroupBy" and c.args and isinstance(c.args[0], ast.Name)]
+    if len(gcalls) != 1:
+        raise AnalysisError("A11: the construction GroupBy(<key list>) in DataFrameGroupBy._from_by_keys is not identified")
+    keys = gcalls[0].args[0].id
+    loops = [l for l in walk_no_nested(f.node) if isinstance(l, ast.For) and isinstance(l.iter, ast.Name) and l.iter.id == by_p]
+    if len(loops) != 1:
+        raise AnalysisError(f"A11: {len(loops)} loops over `{by_p}` in DataFrameGroupBy._from_by_keys (expected 1)")
+    loop = loops[0]
+
+    def appends(stmts) -> int:
+        n_ = 0
+        for st in stmts:
+            for c in ast.walk(st):
+                if isinstance(c, ast.Call) and isinstance(c.func, ast.Attribute) and c.func.attr in ("append", "extend", "insert") \
+                        and isinstance(c.func.value, ast.Name) and c.func.value.id == keys:
+                    n_ += 1
+        return n_
+    n = 0
+    for p in enumerate_paths(loop.body, split_bool=False):
+        if p.exit == "raise":
+            continue
+        n += 1
+        k = appends(p.stmts)
+        desc = p.describe()[:90]
+        if k == 1:
+            res.ok(f, loop, f"per-entry path {desc}: 1 key appended", "", nontrivial=False)
+        else:
+            res.bad(f, loop, f"per-entry path {desc}: {k} keys appended to {keys}",
+                    f"an entry of `{by_p}` does not contribute its key to {keys} at once (it is skipped, or noted and resolved after the loop): "
+                    f"the keys - hence the index levels of every result - no longer come in the order they were given", path=p.describe())
+    if n < 5:
+        raise AnalysisError(f"A11: only {n} non-raising paths through the per-entry loop (floor 5)")
+    # level keys after the by keys
+    lv = [l for l in walk_no_nested(f.node) if isinstance(l, ast.For) and l is not loop and appends(l.body)]
+    if lv and all(l.lineno > loop.lineno for l in lv):
+        res.ok(f, lv[0], f"`level` keys appended after the `{by_p}` keys", "")
+    elif lv:
+        res.bad(f, lv[0], "`level` keys appended before the `by` keys", "keys given through level= must follow the keys given through by= (pandas order)")
+    # nothing re-orders the key list afterwards
+    for c in walk_no_nested(f.node):
+        if isinstance(c, ast.Call) and isinstance(c.func, ast.Attribute) and isinstance(c.func.value, ast.Name) and c.func.value.id == keys \
+                and c.func.attr in ("sort", "reverse"):
+            res.bad(f, c, norm(c), "the key list is re-ordered before the grouping is built")
+        if isinstance(c, ast.Call) and norm(c.func) in ("sorted", "reversed", "set") and c.args and norm(c.args[0]) == keys:
+            res.bad(f, c, norm(c), "the key list is re-ordered before the grouping is built")
+    return res
+
+
+def rule_A12(repo: Repo) -> RuleResult:
+    """The facade relabels engine results, it never re-aligns them.  pd.Series(X, index=I) / pd.DataFrame(X, index=I) with X a
+    pandas object LOOKS UP the labels I in X's own index (reindexing); only for a bare array it attaches I position by
+    position.  Engine results (self._grouper.<op>(..)) are pandas objects, so they may reach such a constructor only as
+    .values / .to_numpy() / np.asarray(..)."""
+    res = RuleResult("A12", "facade: engine results are relabelled by position, never passed with index= to a pandas constructor (which re-aligns by label)")
+    api = repo.mod("groupby.api")
+    n = 0
+    for f in api.functions.values():
+        engine_locals = {s.targets[0].id for s in walk_no_nested(f.node) if isinstance(s, ast.Assign) and len(s.targets) == 1
+                         and isinstance(s.targets[0], ast.Name) and any(
+                             isinstance(c, ast.Call) and attr_chain(c.func) and attr_chain(c.func)[:2] == ("self", "_grouper") for c in [s.value])}
+        for c in walk_no_nested(f.node):
+            if not (isinstance(c, ast.Call) and norm(c.func) in ("pd.Series", "pd.DataFrame") and any(k.arg == "index" for k in c.keywords) and c.args):
+                continue
+            data = c.args[0]
+            direct = [x for x in ast.walk(data) if (isinstance(x, ast.Call) and attr_chain(x.func) and attr_chain(x.func)[:2] == ("self", "_grouper"))
+                      or (isinstance(x, ast.Name) and x.id in engine_locals)]
+            if not direct:
+                continue
+            n += 1
+            stripped = isinstance(data, ast.Attribute) and data.attr == "values" \
+                or (isinstance(data, ast.Call) and isinstance(data.func, ast.Attribute) and data.func.attr in ("to_numpy", "to_list", "tolist")) \
+                or (isinstance(data, ast.Call) and norm(data.func) in ("np.asarray", "np.array", "numpy.asarray"))
+            if stripped:
+                res.ok(f, c, f"{f.qualname}: {norm(c)[:90]}", "bare values: labels attached by position")
+            else:
+                res.bad(f, c, f"{f.qualname}: {norm(c)[:90]}",
+                        "an engine result (a pandas object with its own index) is passed to a pandas constructor together with index=: the "
+                        "constructor looks the new labels up in the result's index instead of relabelling by position, so with any index "
+                        "other than the default RangeIndex rows get other rows' values or NaN")
+    if n == 0:
+        res.ok(api.func("BaseGroupBy.cumcount"), api.func("BaseGroupBy.cumcount").node, "no engine result is handed to a pandas constructor with index=", "", nontrivial=False)
+    return res
